@@ -38,9 +38,29 @@ def pool_check(ctx):
     # (b) schedules (coarse steps, with history) forced on the real code through the gate hooks
     r = ctx.tlc('MC_Pool', cfg(ctx, coarse=True, det=True, hist=True, n=12 if thorough else 8), name='MC_Pool_sched', timeout=6000)
     if ctx.hooks:
-        s = ctx.harness('sched', prop='C14', **{'in': r['out']})
+        ptrace = os.path.join(ctx.work, 'pooltrace.ndjson')
+        s = ctx.harness('sched', prop='C14', aux=ptrace, **{'in': r['out']})
         viol += s['violations']
         cov['compared']['gate replay'] = dict(s['compared'], schedules=s['info'].get('schedules', 0))
+        # the recorded hook events of every 8th schedule, validated by TLC against the Pool discipline (TracePool.tla)
+        from concurrent.futures import ThreadPoolExecutor
+        from . import tracefam
+        files = tracefam.split_runs(ptrace, core.NCPU)
+        with ThreadPoolExecutor(max_workers=core.NCPU) as ex:
+            res = list(ex.map(lambda a: tracefam.validate_one(ctx, a[1], 100 + a[0], module='TracePool', cfg=tracefam.CFG_POOL), enumerate(files)))
+        nev = 0
+        for rr in res:
+            nev += rr['events']
+            ctx.tlc_runs.append(dict(module='TracePool', out=rr['trace'], generated=rr['generated'], distinct=rr['distinct'], wall_s=rr['wall_s']))
+            lines = open(rr['trace']).read().splitlines()
+            for b in rr['bad']:
+                # the whole run the event belongs to
+                i = b['line'] - 1
+                a0 = max(j for j in range(i + 1) if '"ev":"reset"' in lines[j])
+                viol.append(dict(property='C14', kind='recorded hook event is not a behaviour of the Pool specification: ' + b['why'], version='2.0',
+                                 input=dict(event=json.loads(lines[i]), run=[json.loads(x) for x in lines[a0:i + 1]][-12:]),
+                                 expected='see spec/TracePool.tla', observed=b['why'], replay=dict(mode='pooltrace')))
+        cov['compared']['hook events validated by TLC (TracePool)'] = nev
         cov['samples'] += s['samples'][:2]
         nsched = s['info'].get('schedules', 0)
         if thorough:
